@@ -84,12 +84,12 @@ def _setup(n, zero, xlevel, sp, special=None):
     return w, u, C, levels, oracle, fact
 
 
-def _run(ctx: Ctx, m, fn, n, mode, zero=frozenset(), xlevel=0.5, special=None, wlen=None, both=False):
+def _run1(ctx: Ctx, m, fn, n, mode, zero=frozenset(), xlevel=0.5, special=None, wlen=None, both=False, choices=()):
     """Interpret deterministic_choice abstractly for one ordering class.  Returns ('value', v) | ('raise', class name),
     plus whether an argument list was changed."""
     import sympy as sp
     w, u, C, levels, oracle, fact = _setup(n, zero, xlevel, sp, special)
-    it = A.Interp(ctx.src)
+    it = A.Interp(ctx.src, choices)
     idsym = A.Sym("str", "ID")
 
     def proba(it_, args, kw, site):
@@ -101,7 +101,10 @@ def _run(ctx: Ctx, m, fn, n, mode, zero=frozenset(), xlevel=0.5, special=None, w
     it.num_oracle = oracle
     it.num_fact = fact
     it.num_nonnegative = lambda e: e.free_symbols <= set(w) | {u}
-    pop = A.AList([A.Sym("str", f"P{i}") for i in range(n)], "list")
+    # the items are opaque values of alternating kinds (int, float, str, ...): two of them may compare equal without being the
+    # same item (0 and 0.0, 1 and True), and then it still matters WHICH one is returned
+    kinds_ = ("int", "float", "str", "int")
+    pop = A.AList([A.Sym(kinds_[i % 4], f"P{i}") for i in range(n)], "list")
     k = n if wlen is None else wlen
     ws = (w + [sp.Symbol(f"w{i}", nonnegative=True) for i in range(n, k)])[:k]
     cs = [sum(ws[:i + 1], sp.Integer(0)) for i in range(k)]
@@ -120,10 +123,39 @@ def _run(ctx: Ctx, m, fn, n, mode, zero=frozenset(), xlevel=0.5, special=None, w
         out = ("value", v)
     except A.RaiseSig as r:
         out = ("raise", r.exc_name)
-    except (A.Unsupported, A.NeedChoice) as e:
+    except A.NeedChoice:
+        raise
+    except A.Unsupported as e:
         raise Undecided(str(e))
     changed = snap != (list(pop.items), list(wl.items), list(cl.items))
-    return out, pop, changed, (u, levels)
+    return out, pop, changed, (u, levels), list(it.assumptions)
+
+
+def _run(ctx: Ctx, m, fn, n, mode, **kw):
+    """All forks of one ordering class (the code may ask whether two items compare equal).  Returns the list of
+    (outcome, population, changed, (u, levels), assumptions)."""
+    outs, pending = [], [()]
+    while pending:
+        ch = pending.pop()
+        try:
+            outs.append(_run1(ctx, m, fn, n, mode, choices=ch, **kw))
+        except A.NeedChoice:
+            pending.append(ch + (True,))
+            pending.append(ch + (False,))
+        if len(outs) + len(pending) > 64:
+            raise Undecided("too many undetermined decisions in deterministic_choice")
+    return outs
+
+
+def _same_item(got, want, assumptions):
+    """The returned item is the expected one, or one that is indistinguishable from it under the fork's assumptions (same kind
+    and assumed equal)."""
+    if got is want:
+        return True
+    if isinstance(got, A.Sym) and isinstance(want, A.Sym) and got.kind == want.kind:
+        return any(a_.endswith("=True") and f"equal({got.src},{want.src})" in a_ or f"equal({want.src},{got.src})" in a_ and a_.endswith("=True")
+                   for a_ in assumptions)
+    return False
 
 
 def choice_semantics(ctx: Ctx):
@@ -145,20 +177,22 @@ def choice_semantics(ctx: Ctx):
                     if 0 not in zero:
                         xs = [0] + xs          # u == 0
                     for xl in sorted(set(xs)):
-                        (kind, v), pop, changed, (u, levels) = _run(ctx, m, fn, n, mode, zero, xl)
-                        want = next((i for i in range(n) if xl < levels[i]), n - 1)
-                        cls = "rounding" if xl >= levels[-1] else ("tie" if float(xl).is_integer() else "interior")
-                        got = None
-                        if kind == "value":
-                            got = next((i for i, p_ in enumerate(pop.items) if v is p_), None)
-                        res["located"].append({"mode": mode, "n": n, "zero": sorted(zero), "x": xl, "class": cls, "want": want,
-                                               "got": got if kind == "value" else f"raises {v}", "ok": kind == "value" and got == want})
-                        if changed:
-                            res["changed"].append((mode, n))
+                        for (kind, v), pop, changed, (u, levels), assumed in _run(ctx, m, fn, n, mode, zero=zero, xlevel=xl):
+                            want = next((i for i in range(n) if xl < levels[i]), n - 1)
+                            cls = "rounding" if xl >= levels[-1] else ("tie" if float(xl).is_integer() else "interior")
+                            got = None
+                            if kind == "value":
+                                got = next((i for i, p_ in enumerate(pop.items) if v is p_), None)
+                            okk = kind == "value" and got is not None and _same_item(pop.items[got], pop.items[want], assumed)
+                            eqs = [a_.split(" at ")[0] for a_ in assumed if a_.endswith("=True")]
+                            res["located"].append({"mode": mode, "n": n, "zero": sorted(zero), "x": xl, "class": cls, "want": want,
+                                                   "got": got if kind == "value" else f"raises {v}", "ok": okk, "assuming": eqs})
+                            if changed:
+                                res["changed"].append((mode, n))
                         res["n_classes"] += 1
         # unweighted
         for n in (1, 3):
-            (kind, v), pop, changed, (u, levels) = _run(ctx, m, fn, n, "none")
+            (kind, v), pop, changed, (u, levels), _as = _run(ctx, m, fn, n, "none")[0]
             ok = kind == "value" and ((isinstance(v, A.Indexed) and v.seq is pop and sp.simplify(v.index - sp.floor(u * n)) == 0)
                                      or (n == 1 and v is pop.items[0]))       # floor(u) = 0 for u in [0, 1)
             res["unweighted"] = (res["unweighted"] is not False and ok, repr(v) if kind == "value" else f"raises {v}") \
@@ -179,7 +213,7 @@ def choice_semantics(ctx: Ctx):
                     ("both kinds of weights", dict(mode="both"), "TypeError")):
                 label = f"{label}, {n} group{'s' if n > 1 else ''}"
                 try:
-                    (kind, v), *_ = _run(ctx, m, fn, n, **kw)
+                    (kind, v), *_ = _run(ctx, m, fn, n, **kw)[0]
                 except Undecided as e:
                     res["guards"].append({"label": label, "want": want, "got": f"undecided: {e}", "ok": None})
                     continue
@@ -191,7 +225,7 @@ def choice_semantics(ctx: Ctx):
     return res
 
 
-def report(ctx: Ctx, prefix: str, facets=("interior", "tie", "rounding", "unweighted", "guards", "unchanged")):
+def report(ctx: Ctx, prefix: str, facets=("interior", "tie", "rounding", "unweighted", "guards", "unchanged"), names=None):
     """Emit the obligations of the abstract evaluation for one property.  Returns False when the analysis is undecided (the
     caller then falls back to the idiom rules)."""
     sem = choice_semantics(ctx)
@@ -201,7 +235,7 @@ def report(ctx: Ctx, prefix: str, facets=("interior", "tie", "rounding", "unweig
     m, fn = _choice(ctx)
     con = f"{BIN}:deterministic_choice"
     site = m.site(fn)
-    RID = {"interior": "LOCATE", "tie": "BISECT-RIGHT", "rounding": "BISECT-CLAMP"}
+    RID = {"interior": "LOCATE", "tie": "BISECT-RIGHT", "rounding": "BISECT-CLAMP", **(names or {})}
     WHY = {"interior": "a unit whose position lies strictly inside a group's slice is given another group",
            "tie": "a unit exactly on a boundary (u*total equal to a running total, e.g. u = 0 after a zero weight) is not given the next "
                   "group: the search is not a right bisection",
@@ -216,7 +250,8 @@ def report(ctx: Ctx, prefix: str, facets=("interior", "tie", "rounding", "unweig
             b = bad[0]
             ctx.rep.bad(rid, con + f"[{cls}]", f"{WHY[cls]}: with {b['n']} groups, zero weights at {b['zero']}, "
                         f"{'running totals' if b['mode'] == 'cum' else 'weights'} given and u*total at level {b['x']} of the running totals, "
-                        f"the declared group {b['want']} is expected and the function gives {b['got']} "
+                        f"the declared group {b['want']} is expected and the function gives {b['got']}"
+                        + (f" when items of different types compare equal ({'; '.join(b.get('assuming', []))[:80]}, e.g. 0 and 0.0)" if b.get("assuming") else "") + " "
                         f"({len(bad)} of {len(rows)} ordering classes)", site=site, text=f"{cls} classes wrong",
                         witness={k: b[k] for k in ("mode", "n", "zero", "x", "want", "got")})
         else:
